@@ -26,6 +26,13 @@ pub fn cells() -> Vec<(UniCfg, String)> {
             }
         }
     }
+    // no /proc at all in the caller's mount namespace (a privileged caller brings its own procfs;
+    // only the library's error rendering ever looks at the host's /proc)
+    for e in [false, true] {
+        let mut u = if e { UniCfg::e() } else { UniCfg::k() };
+        u.proc_opts = "absent".into();
+        v.push((u, "root".to_string()));
+    }
     v
 }
 
@@ -194,6 +201,11 @@ pub fn judge(case: &Case, out: &RunOut) -> Vec<(String, String)> {
             return v;
         }
     };
+    // the constructor itself failed (try_from_fd on a plain open of a /proc that is not there):
+    // there is no handle to judge
+    if out.records.iter().any(|r| matches!(r.spec.op, Op::ProcNew { .. }) && matches!(r.outcome, Outcome::Err { .. })) {
+        return v;
+    }
     let class = case.extra["class"].as_str().unwrap_or("");
     let privileged = !case.uni.unpriv;
     // resources used inside the lookup
@@ -309,7 +321,7 @@ pub fn finalise(tier: &str, seed: u64, res: coord::CheckResult) -> i32 {
         tier,
         seed,
         "fault_enumeration",
-        "a finite configuration matrix enumerated completely: caller privilege {root; root with the new mount API refused (EPERM); root with only fsopen refused; real unprivileged uid without capabilities} x host /proc mounted with {default, hidepid=1, hidepid=2, hidepid=ptraceable, subset=pid} x procfs resolver {K, E} x operation {open, open_follow, readlink} x constructor {global handle through the C API, ProcfsHandle::new, try_from_fd on a plain open} x base x sub-path {missing, missing in a missing directory, existing file/directory/link, masked-but-existing file and link (mounts, net)}; history phase: a privileged caller with a masked private handle, host /proc {subset=pid, hidepid=2, default}: one errno of the catalogue at every system call of a first lookup, then a second, fault-free lookup that is judged like a matrix cell (a transient failure must not turn 'exists' into ENOENT for later lookups); per lookup the seam counts procfs handles created, descriptors held and trapped calls; non-trivial and distinct = every cell x lookup is a distinct configuration",
+        "a finite configuration matrix enumerated completely: caller privilege {root; root with the new mount API refused (EPERM); root with only fsopen refused; real unprivileged uid without capabilities} x host /proc mounted with {default, hidepid=1, hidepid=2, hidepid=ptraceable, subset=pid; for root also: no /proc at all} x procfs resolver {K, E} x operation {open, open_follow, readlink} x constructor {global handle through the C API, ProcfsHandle::new, try_from_fd on a plain open} x base x sub-path {missing, missing in a missing directory, existing file/directory/link, masked-but-existing file and link (mounts, net)}; history phase: a privileged caller with a masked private handle, host /proc {subset=pid, hidepid=2, default}: one errno of the catalogue at every system call of a first lookup, then a second, fault-free lookup that is judged like a matrix cell (a transient failure must not turn 'exists' into ENOENT for later lookups); per lookup the seam counts procfs handles created, descriptors held and trapped calls; non-trivial and distinct = every cell x lookup is a distinct configuration",
         res,
         extra,
         vec!["the bounds (4 handles, 16 descriptors, 2000 calls per lookup) are the check's reading of 'a constant number'".into(), "RLIMIT_NOFILE is 256 in every universe so that an unbounded retry is observed instead of exhausting memory".into()],
